@@ -430,11 +430,64 @@ def np_copy(ex, args, kw, st):
     return v
 
 
+class SAgg:
+    """Uninterpreted reduction over an index box: kind(SUM|COUNT) of val(p) for p in box(shape)
+    with pred(p).  Two aggregates are related only through their pointwise characterisation
+    (trusted lemma L-sum: equal domain / predicate / values => equal numpy reductions)."""
+
+    def __init__(self, kind, shape, pred, val):
+        self.kind, self.shape, self.pred, self.val = kind, tuple(shape), pred, val
+
+
 def np_count_nonzero(ex, args, kw, st):
     v = args[0]
     if isinstance(v, SArr):
-        return ('COUNT', v.shape, snap(v))
+        return SAgg('COUNT', v.shape, snap(v), lambda p: 1)
     raise Unsupported('count_nonzero')
+
+
+def np_sum(ex, args, kw, st):
+    v = args[0]
+    if 'axis' in kw and kw['axis'] is not None:
+        raise Unsupported('sum along an axis')
+    if isinstance(v, SBag):
+        return SAgg('SUM', v.shape, v.pred, v.val)
+    if isinstance(v, SArr):
+        return SAgg('SUM', v.shape, lambda p: True, snap(v))
+    if isinstance(v, SAgg):
+        return v
+    raise Unsupported('np.sum of this value')
+
+
+def cl_part(which):
+    def g(ex, args, kw, st):
+        v = args[0]
+        idx = tuple(args[1:])
+        if isinstance(v, SArr) and which == 'val':
+            return v.fn(idx)
+        if isinstance(v, SArr) and which == 'pred':
+            return True
+        if not isinstance(v, (SBag, SAgg)):
+            raise Unsupported(f'{which} of {type(v).__name__}')
+        return (v.pred if which == 'pred' else v.val)(idx)
+    return g
+
+
+def cl_shape_of(ex, args, kw, st):
+    v = args[0]
+    if isinstance(v, (SBag, SAgg, SArr)):
+        return tuple(v.shape)
+    raise Unsupported('shape_of')
+
+
+def cl_is_nan(ex, args, kw, st):
+    from .symexec import NAN
+    return args[0] is NAN
+
+
+def cl_kind_of(ex, args, kw, st):
+    v = args[0]
+    return getattr(v, 'kind', type(v).__name__)
 
 
 def np_any(ex, args, kw, st):
@@ -702,7 +755,7 @@ TABLE = {
     'np.ones_like': np_zeros(1, True), 'np.full': np_full, 'np.where': np_where,
     'np.asarray': np_identity, 'np.asanyarray': np_identity, 'np.copy': np_copy,
     'np.array': np_array, 'np.atleast_1d': np_atleast_1d, 'np.transpose': np_transpose,
-    'np.count_nonzero': np_count_nonzero, 'np.any': np_any, 'np.all': np_all,
+    'np.count_nonzero': np_count_nonzero, 'np.sum': np_sum, 'np.nansum': np_sum, 'np.any': np_any, 'np.all': np_all,
     'np.diff': np_diff, 'np.argmax': np_argmax_first_true,
     'PchipInterpolator': p_interp('PchipInterpolator'), 'np.ndim': np_ndim,
     'np.float32': np_identity, 'np.float64': np_identity,
@@ -710,6 +763,8 @@ TABLE = {
     # contract language
     'implies': cl_implies, 'iff': cl_iff, 'forall': cl_forall, 'is_none': cl_is_none,
     'is_int': cl_is_int, 'ite': cl_ite, 'sq': cl_sq, 'isfinite_at': cl_isfinite_at,
+    'sel': cl_part('pred'), 'val': cl_part('val'), 'shape_of': cl_shape_of, 'is_nan': cl_is_nan,
+    'kind_of': cl_kind_of,
 }
 for _e in ('ValueError', 'TypeError', 'IndexError', 'KeyError', 'NotImplementedError',
            'RuntimeError', 'AstropyUserWarning', 'NoDetectionsWarning'):
@@ -770,6 +825,5 @@ def arr_method(ex, v, meth, args, kw, st):
                 return SArr(v.shape, lambda idx, f=snap(v): to_bool(f(idx)), 'bool')
         raise Unsupported('astype')
     if meth == 'sum':
-        if isinstance(v, SArr):
-            return ('SUM', v.shape, snap(v))
+        return np_sum(ex, [v], kw, st)
     raise Unsupported(f'array method {meth}')
